@@ -448,7 +448,8 @@ static void op_mu_wait (op_t *o) {
 	if ((o->a[7] & 4) && !reader) {
 		/* the critical section changes another variable and then ends by blocking in the wait: waiters on that
 		   variable must be served just as after nsync_mu_unlock */
-		var_add (S.nvar > 1 ? (v + 1) % S.nvar : v, 1, 0);
+		int nv0 = (S.family == FAM_CCSMONO && S.nmu > 1) ? S.nvar - 1 : S.nvar;    /* the last variable belongs to the second mutex */
+		var_add (nv0 > 1 ? (v + 1) % nv0 : v, 1, 0);
 	}
 	h_releasing (mi, !reader);
 	if (dl_ns < 0 && note == NULL && (k & 1)) {
